@@ -71,6 +71,10 @@ class Ctx:
         return self.add(rule, f, node, construct, desc, "ok", witness, nontrivial)
 
     def violated(self, rule, f, node, construct, desc, witness=None):
+        # a verdict that rests on a value the analysis could not model is not a verdict: the
+        # witness shows an Unknown(...) where a modelled value was expected -> undecided
+        if witness is not None and "Unknown(" in repr(witness):
+            return self.add(rule, f, node, construct, desc + " [not decided: the compared value contains an unmodelled part]", "undecided", witness, True)
         return self.add(rule, f, node, construct, desc, "violated", witness, True)
 
     def undecided(self, rule, f, node, construct, desc, witness=None):
